@@ -11,10 +11,10 @@ the complete prefixes (`spec::win_stable_prefix`, DESIGN §11.4 round 10); here 
 * `stable_verbatimUNC_noshare_sep` — `Win.Stable` for `VerbatimUNC(server, "")` whose raw text ends with the
   consumed separator.
 
-The plain `UNC(server, "")` with its separator (`\\server\`) re-parses the same way when a *separator* follows, but
-joining a name onto a non-verbatim base that already ends in a separator writes no further one, so `\\server\` + `x`
-is `\\server\x` with share `x` (the last `example`): that base is not stable under `push`, and the harness does not
-let it in either.
+* `stable_unc_noshare_sep` — the same for the plain `UNC(server, "")` with its separator (`\\server\`, server other than
+  `?`), *in the sense of `Stable`*: what follows must be nothing or a separator.  Joining a name onto a non-verbatim
+  base that already ends in a separator writes no further one, so `\\server\` + `x` is `\\server\x` with share `x` (the
+  last `example`): that base is not stable under `push`, and the harness does not let it in.
 -/
 import TypedPathVerif.Props.C02c
 
@@ -71,6 +71,71 @@ theorem stable_verbatimUNC_noshare_sep {b rest : Bytes} {p : PrefixComp} {sv : B
       rw [← this]; exact h2'
     · rw [hr]; exact startsWith_append_long _ _ (by simp)
 
+/-- `UNC(server, "")` whose raw text ends with the consumed separator (`\\server\`) is stable in the sense of
+`Stable` — re-parsed identically when nothing or a *separator* follows — provided the server is not `?`
+(`\\?\` followed by a separator is a verbatim prefix). -/
+theorem stable_unc_noshare_sep {b rest : Bytes} {p : PrefixComp} {sv : Bytes}
+    (h : parsePrefixComp b = some (p, rest)) (hk : p.kind = .unc sv [])
+    (hlen : p.raw.length = 2 + sv.length + 1) (hq : sv ≠ [QMARK]) : Stable p := by
+  have hraw := parsePrefixComp_raw h
+  have hp := parsePrefix_of_comp h
+  rw [hk] at hp
+  obtain ⟨s1, s2, tail, hb, h1, h2, hsvne, hsvfree, htail, hrest, hrestok, _⟩ := (unc_noshare_iff b rest sv).mp hp
+  have hblen : b.length = 2 + sv.length + tail.length := by rw [hb]; simp; omega
+  have hrawlen : p.raw.length + rest.length = b.length := by rw [← hraw]; simp
+  cases tail with
+  | nil =>
+    simp only [maybeSep, takeSep] at hrest
+    subst hrest
+    simp at hblen hrawlen
+    omega
+  | cons x t =>
+    have hx : wsep true x = true := htail
+    rw [maybeSep_cons_sep t hx] at hrest
+    subst hrest
+    have hr : p.raw = s1 :: s2 :: (sv ++ [x]) := by
+      rw [hb] at hraw
+      have : p.raw ++ rest = (s1 :: s2 :: (sv ++ [x])) ++ rest := by simpa using hraw
+      exact List.append_cancel_right this
+    have hlen4 : 4 ≤ p.raw.length := by
+      rw [hr]
+      cases sv with
+      | nil => exact absurd rfl hsvne
+      | cons c r => simp
+    have hn : normOf p.raw = true := by
+      unfold normOf
+      rw [hr]
+      match sv, hsvne, hq, hsvfree with
+      | [c], _, hq, _ =>
+        have : c ≠ QMARK := fun e => hq (by rw [e])
+        simp [startsWith, VERB, List.isPrefixOf]
+        exact Or.inr (Or.inr (Or.inl (fun e => this e.symm)))
+      | c :: d :: r, _, _, hfree =>
+        have hd : anySep d = false := hfree d (by simp)
+        have : d ≠ 92 := by
+          intro e; rw [e] at hd; revert hd; decide
+        simp [startsWith, VERB, List.isPrefixOf]
+        exact Or.inr (Or.inr (Or.inr (fun e => this e.symm)))
+    intro rest' hok
+    have hok' : HeadOK anySep rest' := by
+      cases rest' with
+      | nil => trivial
+      | cons y r =>
+        unfold RestOK at hok
+        rw [hk] at hok
+        have : wsep (normOf p.raw) y = true := hok
+        rw [hn] at this
+        exact this
+    constructor
+    · have := (unc_noshare_iff (s1 :: s2 :: (sv ++ x :: rest')) rest' sv).mpr
+        ⟨s1, s2, x :: rest', rfl, h1, h2, hsvne, hsvfree, hx, (maybeSep_cons_sep rest' hx).symm, hok', fun e => absurd e hq⟩
+      have h2' := parsePrefixComp_of (raw := s1 :: s2 :: (sv ++ [x])) (rest := rest') (k := .unc sv []) (by simpa using this)
+      rw [hr]
+      have : (⟨s1 :: s2 :: (sv ++ [x]), .unc sv []⟩ : PrefixComp) = p := by
+        cases p; simp only at hr hk; subst hr; subst hk; rfl
+      rw [← this]; exact h2'
+    · exact startsWith_append_long _ _ hlen4
+
 /-! non-vacuity: `\\?\UNC\s\` is such a prefix; followed by `\x` it is the same prefix, the `\` starting the
 body; `\\?\UNC\s` (no separator yet) is not stable -/
 example : parsePrefix [92, 92, 63, 92, 85, 78, 67, 92, 115, 92] = some (.verbatimUNC [115] [], []) ∧
@@ -79,10 +144,5 @@ example : parsePrefix ([92, 92, 63, 92, 85, 78, 67, 92, 115] ++ [92, 120]) = som
 
 -- `\\s\` + `x` (what `push` writes): the share becomes `x`
 example : parsePrefix ([92, 92, 115, 92] ++ [120]) = some (.unc [115] [120], []) := by decide
-
-/-- every kind table of `Generated/Constants.lean` was read from the `matches!` arms of the source on this run
-(gen/constants.py keeps the last good table for a query whose arms it can no longer read, names it here, and
-`C02.kind_sets_eq` would then be a statement about arms that are no longer in the source) -/
-theorem kind_sets_read : Generated.kindSetsStale = [] := rfl
 
 end TP.Win
